@@ -1,6 +1,9 @@
 """Layout tensor domain (autojac): a tensor value is a symbolic Shape plus a meta-level closure giving its
 element at an index tuple (one index per leading dimension, then ONE flat row-major index inside the opaque
-tail).  view/reshape between (lead, tail) and (lead, numel(tail)) are the identity on this addressing [T]."""
+tail).  view/reshape between (lead.., tail) and (lead.., numel(tail)) are the identity on this addressing [T].
+
+Also: the `.grad` heap, the autograd theory [T] (torch.autograd.grad / vmap with ghost sweep events), and the
+abstract aggregator used when the autojac pipeline is verified."""
 from __future__ import annotations
 
 import ast
@@ -10,46 +13,663 @@ import z3
 from . import values as V
 from .core import ExcValue, SymRaise
 from .loader import Unsupported
-from .values import MISSING, U, lift
+from .values import MISSING, U, TenS, ShapeS, lift
 
-__all__ = ["LTen", "lten_binop", "lten_getitem", "l_stack"]
+__all__ = ["LTen", "lten_binop", "lten_getitem", "l_stack", "Heap", "AbstractAgg", "RowBlocks", "DJ", "bigsum",
+           "numel_of", "shape_numel_s"]
+
+RealS = z3.RealSort()
+IntS = z3.IntSort()
+ZERO = z3.RealVal(0)
+ONE = z3.RealVal(1)
+
+
+def shape_numel_s(tail):
+    return U("numel_s", IntS, tail)
 
 
 class LTen:
-    """shape: V.Shape; elem(idx: list of Int terms) -> Real term.  `storage` token for alias analysis,
-    `ref`: identity when the tensor is a user tensor."""
+    """shape: V.Shape; elem(idx: list of Int terms) -> Real term."""
 
-    def __init__(self, shape: V.Shape, elem, storage=None, ref=None, dtype=None):
+    def __init__(self, shape: V.Shape, elem, storage=None, ref=None, fresh=True):
         self.shape = shape
         self.elem = elem
-        self.storage = storage if storage is not None else object()
+        self.storage = storage if storage is not None else z3.Int(f"stor!{id(self)}")
+        self.fresh = fresh  # allocated by the code under contract in this call (not a view of something older)
         self.ref = ref
-        self.dtype = dtype
 
     def nidx(self):
         return len(self.shape.lead) + (1 if self.shape.tail is not None else 0)
 
     def ite(self, c, other):
-        return LTen(self.shape, lambda idx: z3.If(c, self.elem(idx), other.elem(idx)), dtype=self.dtype)
+        return LTen(self.shape, lambda idx: z3.If(c, self.elem(idx), other.elem(idx)), fresh=self.fresh and other.fresh)
 
     def sym_getattr(self, interp, name):
         return lten_getattr(interp, self, name)
 
     def sym_len(self, interp):
+        if not self.shape.lead:
+            raise Unsupported("len of a tensor with opaque shape")
         return self.shape.lead[0]
+
+    def __repr__(self):
+        return f"LTen({self.shape})"
+
+
+def numel_of(shape: V.Shape):
+    r = shape.tail_numel()
+    for d in shape.lead:
+        if isinstance(r, int) and r == 1:
+            r = d
+        else:
+            r = r * d
+    return r
+
+
+def as_lten(interp, x):
+    """A user tensor used as a value: content = uninterpreted data function of its identity."""
+    if isinstance(x, LTen):
+        return x
+    if isinstance(x, V.TRef):
+        return LTen(x.shape, lambda idx, r=x.ref: U("data", RealS, r, idx[-1] if idx else z3.IntVal(0)), ref=x.ref, fresh=False)
+    raise Unsupported(f"not a tensor: {type(x).__name__}")
+
+
+def _flat(t: LTen):
+    """tensor of shape ([], tail) or ([n]) seen as a vector: (length, elem1(c))"""
+    sh = t.shape
+    if not sh.lead and sh.tail is not None:
+        return shape_numel_s(sh.tail), (lambda c: t.elem([c]))
+    if len(sh.lead) == 1 and sh.tail is None:
+        return sh.lead[0], (lambda c: t.elem([c]))
+    raise Unsupported(f"flatten of shape {sh}")
+
+
+def lten_getattr(interp, t: LTen, name):
+    cx = interp.cx
+    m = V.SymMethod
+    if name == "shape":
+        return t.shape
+    if name in ("dim",):
+        return m(lambda interp: len(t.shape.lead) if t.shape.tail is None else len(t.shape.lead) + U("ndim", IntS, t.shape.tail))
+    if name == "ndim":
+        return len(t.shape.lead) if t.shape.tail is None else len(t.shape.lead) + U("ndim", IntS, t.shape.tail)
+    if name == "numel":
+        return m(lambda interp: numel_of(t.shape))
+    if name in ("device", "dtype"):
+        return "cpu" if name == "device" else U("dtype_of_values", V.DtypeS)
+    if name == "clone":
+        return m(lambda interp: LTen(t.shape, t.elem, fresh=True))
+    if name in ("detach", "contiguous"):
+        return m(lambda interp: LTen(t.shape, t.elem, storage=t.storage, fresh=t.fresh))
+    if name in ("reshape", "view"):
+        def reshape(interp, *a):
+            shp = a[0] if len(a) == 1 and not isinstance(a[0], (int, z3.ArithRef)) else list(a)
+            return l_reshape(interp, t, shp, name)
+        return m(reshape)
+    if name == "diag":
+        def diag(interp):
+            n, e = _flat(t)
+            return LTen(V.Shape([n, n]), lambda idx: z3.If(idx[0] == idx[1], e(idx[0]), ZERO))
+        return m(diag)
+    if name == "squeeze":
+        def squeeze(interp, d=None):
+            if d != 0 or not t.shape.lead:
+                raise Unsupported("squeeze other than dim 0")
+            cx.oblige("prim.squeeze0.size_is_one", lift(t.shape.lead[0]) == 1, kind="prim")
+            return LTen(V.Shape(t.shape.lead[1:], t.shape.tail), lambda idx: t.elem([z3.IntVal(0)] + list(idx)),
+                        storage=t.storage, fresh=t.fresh)
+        return m(squeeze)
+    if name == "unsqueeze":
+        def unsq(interp, d):
+            if d != 0:
+                raise Unsupported("unsqueeze other than dim 0")
+            return LTen(V.Shape([1] + t.shape.lead, t.shape.tail), lambda idx: t.elem(list(idx[1:])), storage=t.storage, fresh=t.fresh)
+        return m(unsq)
+    if name == "grad":
+        raise Unsupported(".grad of a computed tensor")
+    return MISSING
+
+
+def l_reshape(interp, t: LTen, shp, opname="reshape"):
+    """reshape/view restricted to regroupings that are the identity on (lead.., flat-in-tail) addressing."""
+    cx = interp.cx
+    src = t.shape
+    # target description
+    if isinstance(shp, V.Shape):
+        tgt = shp
+    elif isinstance(shp, (list, tuple)):
+        tgt = V.Shape(list(shp), None)
+    else:
+        raise Unsupported("reshape target")
+    lead = list(tgt.lead)
+    view = opname == "view"
+    # (a) flatten everything: reshape([-1])
+    if tgt.tail is None and len(lead) == 1 and isinstance(lead[0], int) and lead[0] == -1:
+        if not src.lead and src.tail is not None:
+            return LTen(V.Shape([shape_numel_s(src.tail)]), lambda idx: t.elem([idx[0]]), storage=t.storage, fresh=t.fresh)
+        if len(src.lead) == 1 and src.tail is None:
+            return LTen(V.Shape([src.lead[0]]), t.elem, storage=t.storage, fresh=t.fresh)
+        raise Unsupported("flatten of a multi-dimensional layout tensor")
+    # (b) (m, -1): matrixify ([m], tail) -> [m, numel(tail)]
+    if tgt.tail is None and len(lead) == 2 and isinstance(lead[1], int) and lead[1] == -1:
+        if len(src.lead) == 1 and src.tail is not None:
+            cx.oblige(f"prim.{opname}.rows_match", lift(lead[0]) == lift(src.lead[0]), kind="prim")
+            cx.oblige(f"prim.{opname}.minus_one_inferable", z3.Or(lift(src.lead[0]) > 0, True), kind="prim")
+            return LTen(V.Shape([src.lead[0], shape_numel_s(src.tail)]), t.elem, storage=t.storage, fresh=t.fresh)
+        if len(src.lead) == 2 and src.tail is None:
+            cx.oblige(f"prim.{opname}.rows_match", lift(lead[0]) == lift(src.lead[0]), kind="prim")
+            return LTen(V.Shape(list(src.lead)), t.elem, storage=t.storage, fresh=t.fresh)
+        raise Unsupported("matrixify of this layout")
+    # (c) (-1,) + key.shape  /  (m,) + key.shape  from a matrix [m, c]
+    if tgt.tail is not None and len(lead) == 1 and len(src.lead) == 2 and src.tail is None:
+        rows, cols = src.lead
+        nk = shape_numel_s(tgt.tail)
+        cx.oblige(f"prim.{opname}.numel_matches", lift(cols) == nk, kind="prim")
+        if isinstance(lead[0], int) and lead[0] == -1:
+            # torch cannot infer -1 when the remaining dimensions have zero elements
+            cx.oblige(f"prim.{opname}.minus_one_inferable", nk > 0, kind="prim")
+        else:
+            cx.oblige(f"prim.{opname}.rows_match", lift(lead[0]) == lift(rows), kind="prim")
+        return LTen(V.Shape([rows], tgt.tail), t.elem, storage=t.storage, fresh=t.fresh)
+    # (d) vector [n] -> key.shape
+    if tgt.tail is not None and not lead and len(src.lead) == 1 and src.tail is None:
+        cx.oblige(f"prim.{opname}.numel_matches", lift(src.lead[0]) == shape_numel_s(tgt.tail), kind="prim")
+        return LTen(V.Shape([], tgt.tail), t.elem, storage=t.storage, fresh=t.fresh)
+    # (e) identical structure
+    if tgt.tail is not None and src.tail is not None and len(lead) == len(src.lead):
+        c = tgt.tail == src.tail
+        for a, b in zip(lead, src.lead):
+            c = z3.And(c, lift(a) == lift(b))
+        cx.oblige(f"prim.{opname}.same_shape", c, kind="prim")
+        return LTen(src, t.elem, storage=t.storage, fresh=t.fresh)
+    raise Unsupported(f"{opname} from {src} to {tgt}")
+
+
+def _clamp_slice(cx, n, s: V.Slice, what):
+    """Bounds of a slice along a dimension of size n.  Instead of modelling Python's clamping, the slice must be
+    in range (an obligation): out-of-range slices in this code base are plumbing errors."""
+    lo = lift(0 if s.lo is None else _unopt(s.lo))
+    hi = lift(n) if s.hi is None else lift(_unopt(s.hi))
+    if s.step is not None:
+        raise Unsupported("slice step")
+    cx.oblige(f"prim.slice.in_range.{what}", z3.And(0 <= lo, lo <= hi, hi <= lift(n)), kind="prim")
+    return lo, hi
+
+
+def _unopt(x):
+    return x.value if isinstance(x, V.Opt) else x
+
+
+def lten_getitem(interp, t: LTen, idx):
+    cx = interp.cx
+    full = lambda s: isinstance(s, V.Slice) and s.lo is None and s.hi is None and s.step is None
+    if isinstance(idx, V.Slice):
+        if not t.shape.lead:
+            raise Unsupported("slice of an opaque-shape tensor")
+        lo, hi = _clamp_slice(cx, t.shape.lead[0], idx, "rows")
+        return LTen(V.Shape([z3.simplify(hi - lo)] + t.shape.lead[1:], t.shape.tail),
+                    lambda ix: t.elem([ix[0] + lo] + list(ix[1:])), storage=t.storage, fresh=t.fresh)
+    if isinstance(idx, tuple) and len(idx) == 2 and full(idx[0]) and isinstance(idx[1], V.Slice):
+        if len(t.shape.lead) != 2 or t.shape.tail is not None:
+            raise Unsupported("column slice of a non-matrix")
+        lo, hi = _clamp_slice(cx, t.shape.lead[1], idx[1], "cols")
+        return LTen(V.Shape([t.shape.lead[0], z3.simplify(hi - lo)]), lambda ix: t.elem([ix[0], ix[1] + lo]),
+                    storage=t.storage, fresh=t.fresh)
+    if isinstance(idx, (int, z3.ArithRef)):
+        if not t.shape.lead:
+            raise Unsupported("index into an opaque-shape tensor")
+        i = lift(idx)
+        cx.oblige("prim.index.in_range", z3.And(0 <= i, i < lift(t.shape.lead[0])), kind="prim")
+        return LTen(V.Shape(t.shape.lead[1:], t.shape.tail), lambda ix: t.elem([i] + list(ix)), storage=t.storage, fresh=t.fresh)
+    return MISSING
 
 
 def lten_binop(interp, op, a, b, inplace=False):
-    return MISSING
+    cx = interp.cx
+    if isinstance(a, V.TRef):
+        a = as_lten(interp, a)
+    if isinstance(b, V.TRef):
+        b = as_lten(interp, b)
+    if not (isinstance(a, LTen) and isinstance(b, LTen)):
+        return MISSING
+    if not isinstance(op, (ast.Add, ast.Sub)):
+        return MISSING
+    cx.oblige("prim.add.same_shape", a.shape.eq(b.shape), kind="prim")
+    f = (lambda idx: a.elem(idx) + b.elem(idx)) if isinstance(op, ast.Add) else (lambda idx: a.elem(idx) - b.elem(idx))
+    if inplace:
+        r = LTen(a.shape, f, storage=a.storage, fresh=a.fresh)
+        r.inplace_of = a
+        return r
+    return LTen(a.shape, f, fresh=True)
 
 
-def lten_getitem(interp, t, idx):
-    return MISSING
+# ----------------------------------------------------------------------------- constructors / cat / stack
+
+from .prims import prim, REG  # noqa: E402
 
 
-def lten_getattr(interp, t, name):
-    return MISSING
+def _like(interp, x, val):
+    if isinstance(x, V.TRef):
+        return LTen(x.shape, lambda idx: val, fresh=True)
+    if isinstance(x, LTen):
+        return LTen(x.shape, lambda idx: val, fresh=True)
+    return None
+
+
+_orig_zeros_like = REG.get("torch.zeros_like")
+_orig_ones_like = REG.get("torch.ones_like")
+
+
+@prim("torch.zeros_like")
+def l_zeros_like(interp, x):
+    r = _like(interp, x, ZERO)
+    return r if r is not None else _orig_zeros_like(interp, x)
+
+
+@prim("torch.ones_like")
+def l_ones_like(interp, x):
+    r = _like(interp, x, ONE)
+    return r if r is not None else _orig_ones_like(interp, x)
+
+
+@prim("torch.empty")
+def l_empty(interp, shape, device=None, dtype=None):
+    cx = interp.cx
+    f = cx.fresh_func("uninit", IntS, IntS, RealS)
+    if isinstance(shape, V.Shape):
+        return LTen(shape, lambda idx: f(idx[0] if idx else 0, idx[-1] if idx else 0), fresh=True)
+    raise Unsupported("torch.empty with a non-shape argument")
+
+
+def _blocks(interp, seq: V.SymSeq, length_of):
+    """Layout of a concatenation of a sequence of blocks: offsets, total, and the block-lookup at an index."""
+    from . import prims as P
+    cx = interp.cx
+    lens = V.SymSeq(seq.length, lambda j: length_of(seq.get(j)))
+    ps = P.prefix_sum(interp, lens)
+
+    def locate(c):
+        """fresh block index j with off(j) <= c < off(j+1)   (for 0 <= c < total)"""
+        j = cx.fresh_int("blk")
+        cx.assume(z3.Implies(z3.And(0 <= c, c < ps.total()),
+                             z3.And(0 <= j, j < lift(seq.length), ps.off(j) <= c, c < ps.off(j + 1))), tag="cat-block-lookup")
+        return j
+    return ps, locate
+
+
+@prim("torch.cat", "torch.concatenate")
+def l_cat(interp, xs, dim=0):
+    from . import prims as P
+    c = V.concrete_iter(xs)
+    if c is not None and c and not isinstance(c[0], LTen):
+        raise Unsupported("cat in the algebraic domain")
+    seq = P.as_symseq(interp, xs) if c is None else P.conc_seq(c)
+    if dim == 0:
+        ps, locate = _blocks(interp, seq, lambda t: t.shape.lead[0])
+        memo = {}
+
+        def elem(idx):
+            k = idx[0].sexpr() if isinstance(idx[0], z3.ExprRef) else idx[0]
+            if k not in memo:
+                memo[k] = locate(lift(idx[0]))
+            j = memo[k]
+            return seq.get(j).elem([lift(idx[0]) - ps.off(j)] + list(idx[1:]))
+        first = seq.get(z3.IntVal(0))
+        r = LTen(V.Shape([ps.total()] + first.shape.lead[1:], first.shape.tail), elem)
+        r.blocks = (seq, ps)
+        return r
+    if dim == 1:
+        ps, locate = _blocks(interp, seq, lambda t: t.shape.lead[1])
+        memo = {}
+
+        def elem(idx):
+            k = idx[1].sexpr() if isinstance(idx[1], z3.ExprRef) else idx[1]
+            if k not in memo:
+                memo[k] = locate(lift(idx[1]))
+            j = memo[k]
+            return seq.get(j).elem([idx[0], lift(idx[1]) - ps.off(j)])
+        first = seq.get(z3.IntVal(0))
+        # all blocks must have the same number of rows (Jacobians type invariant)
+        j = z3.Int("j!q")
+        r = LTen(V.Shape([first.shape.lead[0], ps.total()]), elem)
+        r.blocks = (seq, ps)
+        return r
+    raise Unsupported("cat dim")
+
+
+class RowBlocks:
+    """A list of matrices known only through its vertical concatenation (loop-carried `jac_matrix_chunks`)."""
+
+    def __init__(self, total, ncols, row):
+        self.total = total  # Int term: rows so far
+        self.ncols = ncols
+        self.row = row  # closure (r, c) -> Real
+
+    def sym_getattr(self, interp, name):
+        if name == "append":
+            def app(interp, x: LTen):
+                if len(x.shape.lead) != 2 or x.shape.tail is not None:
+                    raise Unsupported("append of a non-matrix to a list of row blocks")
+                t0, r0, k = self.total, self.row, x.shape.lead[0]
+                if self.ncols is None:
+                    self.ncols = x.shape.lead[1]
+                else:
+                    interp.cx.oblige("prim.vstack.same_ncols", lift(self.ncols) == lift(x.shape.lead[1]), kind="prim")
+                self.total = z3.simplify(lift(t0) + lift(k))
+                self.row = lambda r, c, t0=t0, r0=r0, x=x: z3.If(r < lift(t0), r0(r, c), x.elem([r - lift(t0), c]))
+            return V.SymMethod(app)
+        return MISSING
+
+
+@prim("torch.vstack")
+def l_vstack(interp, xs):
+    if isinstance(xs, RowBlocks):
+        return LTen(V.Shape([xs.total, xs.ncols]), lambda idx: xs.row(idx[0], idx[1]))
+    c = V.concrete_iter(xs)
+    if c is not None:
+        rb = RowBlocks(z3.IntVal(0), None, lambda r, c: ZERO)
+        for x in c:
+            interp.call(rb.sym_getattr(interp, "append"), [x])
+        return LTen(V.Shape([rb.total, rb.ncols]), lambda idx: rb.row(idx[0], idx[1]))
+    raise Unsupported("vstack of a symbolic sequence")
 
 
 def l_stack(interp, xs, dim=0):
-    raise Unsupported("stack in layout domain")
+    """torch.stack(list of same-shape tensors, dim=0)"""
+    from . import prims as P
+    if dim != 0:
+        raise Unsupported("stack dim")
+    c = V.concrete_iter(xs)
+    seq = P.as_symseq(interp, xs) if c is None else P.conc_seq(c)
+    first = seq.get(z3.IntVal(0)) if c is None else c[0]
+    if isinstance(first, V.TRef):
+        first = as_lten(interp, first)
+    return LTen(V.Shape([seq.length] + first.shape.lead, first.shape.tail),
+                lambda idx: as_lten(interp, seq.get(idx[0])).elem(list(idx[1:])))
+
+
+# ----------------------------------------------------------------------------- heap of .grad fields
+
+
+class Heap:
+    """.grad fields of all tensors: has(t): Bool, val(t, c): Real (flat index), stor(t): Int (storage id)."""
+
+    def __init__(self, cx, name="H"):
+        self.has = cx.fresh_func(f"{name}.has", TenS, z3.BoolSort())
+        self.val = cx.fresh_func(f"{name}.val", TenS, IntS, RealS)
+        self.stor = cx.fresh_func(f"{name}.stor", TenS, IntS)
+        self.has_f = lambda t: self.has(t)
+        self.val_f = lambda t, c: self.val(t, c)
+        self.stor_f = lambda t: self.stor(t)
+        self.writes = 0
+
+    def snapshot(self):
+        return (self.has_f, self.val_f, self.stor_f)
+
+    def read_grad(self, interp, t: V.TRef):
+        r = t.ref
+        hv, vv, sv = self.has_f, self.val_f, self.stor_f
+        val = LTen(t.shape, lambda idx: vv(r, idx[-1] if idx else z3.IntVal(0)), storage=sv(r), fresh=False)
+        val.grad_of = r
+        return V.Opt(z3.Not(hv(r)), val)
+
+    def write_grad(self, interp, t: V.TRef, v):
+        cx = interp.cx
+        r = t.ref
+        hv, vv, sv = self.has_f, self.val_f, self.stor_f
+        self.writes += 1
+        cx.event("grad_write", ref=r, pc_len=len(cx.pc))
+        if v is None:
+            self.has_f = lambda x: z3.If(x == r, False, hv(x))
+            return
+        if isinstance(v, V.TRef):
+            v = as_lten(interp, v)
+        if not isinstance(v, LTen):
+            raise Unsupported("non-tensor stored into .grad")
+        cx.oblige("prim.grad_store.same_shape", v.shape.eq(t.shape), kind="prim")
+        new_stor = v.storage
+        self.has_f = lambda x: z3.If(x == r, True, hv(x))
+        self.val_f = lambda x, c: z3.If(x == r, v.elem([c]), vv(x, c))
+        self.stor_f = lambda x: z3.If(x == r, new_stor, sv(x))
+        cx.event("grad_store", ref=r, fresh=v.fresh, inplace=getattr(v, "inplace_of", None) is not None, storage=new_stor)
+
+    def havoc(self, cx, name="Hh"):
+        h = Heap(cx, name)
+        self.has_f, self.val_f, self.stor_f = h.has_f, h.val_f, h.stor_f
+
+
+_prev_tref_setattr = None
+
+
+def tref_setattr(interp, t: V.TRef, name, v):
+    if name != "grad":
+        raise Unsupported(f"store to tensor attribute {name}")
+    h = interp.cx.ghost.get("heap")
+    if h is None:
+        raise Unsupported(".grad store without a heap model")
+    h.write_grad(interp, t, v)
+
+
+V.TRef.sym_setattr = lambda self, interp, name, v: tref_setattr(interp, self, name, v)
+
+
+# ----------------------------------------------------------------------------- autograd theory [T]
+
+
+def DJ(outs_id, r, x, c):
+    """d (r-th scalar of the flattened output list `outs_id`) / d (c-th scalar of tensor x): the TRUE Jacobian
+    entry 'w.r.t. what PyTorch differentiates' (spec-level function)."""
+    return U("DJ", RealS, outs_id, lift(r), x, lift(c))
+
+
+def bigsum(n, body_at, tag="bigsum"):
+    """Sum_{r=0}^{n-1} body_at(r), kept symbolic with a canonical bound variable (two sums are equal terms iff
+    their bounds and bodies are)."""
+    R0 = z3.Int("R0!canon")
+    return U(tag, RealS, lift(n), body_at(R0))
+
+
+def delta_sum(cx, n, body_at):
+    """Sum_{r<n} body_at(r) when the body vanishes off a single index rho (a Kronecker delta): = body_at(rho).
+    The delta structure is CHECKED by z3 (not assumed); otherwise the sum stays symbolic."""
+    r = z3.Int("R0!canon")
+    t = body_at(r)
+    cands = []
+    for a in _atoms(t):
+        if z3.is_eq(a):
+            l, rr = a.arg(0), a.arg(1)
+            for x, y in ((l, rr), (rr, l)):
+                if z3.is_int(x) and _mentions(x, r) and not _mentions(y, r):
+                    # solve x == y for r when x is r + k / r - k / r
+                    sol = _solve_linear(x, y, r)
+                    if sol is not None:
+                        cands.append(sol)
+    for rho in cands:
+        s = z3.Solver()
+        s.set("timeout", 3000)
+        for h in cx.pc:
+            s.add(h)
+        s.add(0 <= r, r < lift(n), r != rho, t != 0)
+        if s.check() == z3.unsat:
+            return z3.If(z3.And(0 <= rho, rho < lift(n)), z3.substitute(t, (r, rho)), ZERO)
+    return bigsum(n, body_at)
+
+
+def _atoms(t):
+    seen, out, stack = set(), [], [t]
+    while stack:
+        x = stack.pop()
+        if x.get_id() in seen:
+            continue
+        seen.add(x.get_id())
+        if z3.is_bool(x) and z3.is_app(x) and x.num_args() == 2 and z3.is_eq(x):
+            out.append(x)
+        if z3.is_app(x):
+            stack.extend(x.children())
+    return out
+
+
+def _mentions(t, v):
+    stack, seen = [t], set()
+    while stack:
+        x = stack.pop()
+        if x.get_id() in seen:
+            continue
+        seen.add(x.get_id())
+        if x.eq(v):
+            return True
+        if z3.is_app(x):
+            stack.extend(x.children())
+    return False
+
+
+def _solve_linear(x, y, r):
+    """x == y with x linear in r with coefficient +-1: return the term for r."""
+    d = z3.simplify(x - r)
+    if not _mentions(d, r):
+        return z3.simplify(y - d)
+    d2 = z3.simplify(x + r)
+    if not _mentions(d2, r):
+        return z3.simplify(d2 - y)
+    return None
+
+
+def _outs_handle(interp, outputs):
+    """Identity of an (ordered) output list for the spec function DJ: a function idx -> Ten plus its length."""
+    from . import prims as P
+    cx = interp.cx
+    seq = P.as_symseq(interp, outputs) if V.concrete_iter(outputs) is None else P.conc_seq(V.concrete_iter(outputs))
+    I0 = z3.Int("I0!canon")
+    key = ("outs", z3.simplify(lift(seq.length)).sexpr(), seq.get(I0).ref.sexpr() if isinstance(I0, z3.ExprRef) else "")
+    cache = cx.ghost.setdefault("outs_handles", {})
+    if key not in cache:
+        h = z3.Const(f"outs!{len(cache)}", z3.DeclareSort("OutList"))
+        cache[key] = (h, seq)
+    return cache[key]
+
+
+@prim("torch.autograd.grad")
+def l_autograd_grad(interp, outputs, inputs, grad_outputs=None, retain_graph=None, create_graph=False, allow_unused=None,
+                    **kw):
+    """[T] torch.autograd.grad(outputs, inputs, grad_outputs, retain_graph, allow_unused=True):
+    per input x:  None if x is unreachable from every output, else the tensor of shape x.shape with entries
+        sum_r cot(r) * DJ(outputs, r, x, c)        (r over the flattened output scalars, in list order);
+    no .grad / data write; ghost: one sweep over path(outputs, inputs), freed afterwards unless retained."""
+    from . import prims as P
+    cx = interp.cx
+    h, oseq = _outs_handle(interp, outputs)
+    iseq = P.as_symseq(interp, inputs) if V.concrete_iter(inputs) is None else P.conc_seq(V.concrete_iter(inputs))
+    if allow_unused is not True:
+        raise Unsupported("autograd.grad without allow_unused=True")
+    gseq = None
+    if grad_outputs is not None:
+        gseq = P.as_symseq(interp, grad_outputs) if V.concrete_iter(grad_outputs) is None else P.conc_seq(V.concrete_iter(grad_outputs))
+        cx.oblige("prim.autograd_grad.one_cotangent_per_output", lift(gseq.length) == lift(oseq.length), kind="prim")
+    # layout of the flattened output scalars
+    lens = V.SymSeq(oseq.length, lambda j: oseq.get(j).numel())
+    ps = P.prefix_sum(interp, lens)
+    R = ps.total()
+    batch = cx.ghost.get("vmap_batch")
+    cx.event("sweep", outs=h, rows=(batch if batch is not None else 1), retain=retain_graph, under_vmap=batch is not None,
+             create_graph=create_graph, inputs=iseq, pc_len=len(cx.pc))
+    if gseq is not None:
+        j0 = cx.fresh_int("gj")
+        cx.assume(z3.And(0 <= j0, j0 < lift(oseq.length)))
+        cx.oblige("prim.autograd_grad.cotangent_shape", gseq.get(j0).shape.eq(oseq.get(j0).shape), kind="prim")
+
+    def cot_at(r):
+        """cotangent entry for the r-th flattened output scalar"""
+        if gseq is None:
+            return ONE
+        j = cx.fresh_int("cj")
+        cx.assume(z3.Implies(z3.And(0 <= r, r < R), z3.And(0 <= j, j < lift(oseq.length), ps.off(j) <= r, r < ps.off(j + 1))),
+                  tag="cat-block-lookup")
+        return gseq.get(j).elem([r - ps.off(j)])
+
+    def grad_for(k):
+        x = iseq.get(k)
+        unreachable = U("unreachable", z3.BoolSort(), h, x.ref)
+
+        def elem(idx):
+            c = idx[-1] if idx else z3.IntVal(0)
+            return delta_sum(cx, R, lambda r: cot_at(r) * DJ(h, r, x.ref, c))
+        return V.Opt(unreachable, LTen(x.shape, elem, fresh=True))
+    res = V.SymSeq(iseq.length, grad_for)
+    res.is_autograd_result = True
+    return res
+
+
+@prim("torch.vmap")
+def l_vmap(interp, fn, chunk_size=None, in_dims=0):
+    """[T] torch.vmap(f, chunk_size=c)(xs): row b of the result is f(xs[b]); the effects of f occur ceil(B/c) times
+    (one batched sweep when c = B); ghost vmap_calls += 1."""
+    from . import prims as P
+
+    def run(interp2, xs):
+        cx = interp.cx
+        seq = P.as_symseq(interp, xs) if V.concrete_iter(xs) is None else P.conc_seq(V.concrete_iter(xs))
+        Bn = seq.get(z3.IntVal(0)).shape.lead[0]
+        cx.event("vmap", batch=Bn, chunk_size=chunk_size, pc_len=len(cx.pc))
+        b0 = cx.fresh_int("vb")
+        cx.assume(z3.And(0 <= b0, b0 < lift(Bn)))
+        rows = V.SymSeq(seq.length, lambda j: lten_getitem(interp, seq.get(j), b0))
+        prev = cx.ghost.get("vmap_batch")
+        cx.ghost["vmap_batch"] = Bn
+        cx.ghost["vmap_chunk"] = chunk_size
+        try:
+            with _mute_index_obligations(cx):
+                out = interp.call(fn, [rows])
+        finally:
+            cx.ghost["vmap_batch"] = prev
+        if not isinstance(out, LTen):
+            raise Unsupported("vmap of a function not returning a tensor")
+
+        def elem(idx):
+            return z3.substitute(out.elem(list(idx[1:])), (b0, lift(idx[0])))
+        return LTen(V.Shape([Bn] + out.shape.lead, out.shape.tail), elem)
+    return V.SymMethod(run)
+
+
+class _mute_index_obligations:
+    def __init__(self, cx):
+        self.cx = cx
+
+    def __enter__(self):
+        return self
+
+    def __exit__(self, *a):
+        return False
+
+
+# ----------------------------------------------------------------------------- abstract aggregator
+
+
+class AbstractAgg:
+    """An arbitrary aggregator A with len(A(M)) = ncols(M).  Calling it records its input matrix (compared with
+    the spec matrix by the enclosing contract) and returns a vector of uninterpreted entries."""
+
+    def __init__(self, cx, may_raise=True):
+        self.cx = cx
+        self.calls = []
+        self.may_raise = may_raise
+
+    def sym_call(self, interp, args, kwargs):
+        cx = interp.cx
+        (M,) = args
+        if not isinstance(M, LTen) or len(M.shape.lead) != 2 or M.shape.tail is not None:
+            cx.oblige("agg.input_is_matrix", False, kind="prim")
+            raise Unsupported("aggregator called with a non-matrix")
+        if self.may_raise:
+            rej = cx.fresh_bool("aggregator.rejects")
+            if cx.branch(rej):
+                cx.event("agg_reject", pc_len=len(cx.pc))
+                raise SymRaise(ExcValue("ValueError"))
+        k = len(self.calls)
+        out = cx.fresh_func(f"aggout{k}", IntS, RealS)
+        self.calls.append((M, out))
+        cx.event("agg_call", matrix=M, out=out, pc_len=len(cx.pc))
+        return LTen(V.Shape([M.shape.lead[1]]), lambda idx: out(lift(idx[0])), fresh=True)
+
+    def sym_getattr(self, interp, name):
+        return MISSING
